@@ -9,6 +9,13 @@ COMMON_NOTE = ("Trusted: Coq 8.16.1 kernel and its VM (vm_compute; no native_com
                "(virtual clock, scheduler, canonicalisation, case printer). ")
 # id -> (text, note, technique, design_ref)
 CLAIMED = {
+ "C15": ("Theorems over the Gallina image of rate.py, rate_slide.py, Memory.slice_incr and circuit_breaker.py on the TTL-map spec, each as an invariant plus a "
+         "one-call statement: rate_limit runs a call only if fewer than `limit` ran in the counter's current life, whose deadline is period after the first call / ttl "
+         "after the first rejection; slice_rate_limit (strictly increasing instants) never runs a call that has `limit` executed calls in the period before it; the "
+         "breaker's window logs hold exactly the calls of the last period, it never runs the function while open, and opens exactly when a listed failure meets "
+         "min_calls and errors_rate on those counts. Real decorators on the facade are driven under the virtual clock with bursts/gaps on window boundaries.",
+         "half_open_ttl=None; integer form of the errors_rate comparison; concurrency argued (atomic counter results) but only sequential histories are modelled.",
+         "Coq proof (epoch / window-log invariants) + differential correspondence under virtual time", "3/C15"),
  "C14": ("Theorems over the Gallina image of the four decision trees on the TTL-map spec, each as an invariant plus a one-call statement valid in every state "
          "satisfying it: early never serves a result stored ttl or more ago, serves without running while younger than early_ttl, and starts a refresh only "
          "when the lock is free (taking it for early_ttl); soft recomputes after soft_ttl and falls back only on a listed exception while younger than ttl; "
